@@ -470,6 +470,9 @@ func c02Stress(seed int64, tier string) *c02Result {
 		if !col.failed() {
 			c02OverlapSweep(col, seed, tier)
 		}
+		if !col.failed() {
+			c02OrderSweep(col, tier)
+		}
 	}
 	for k := range col.seq {
 		res.Distinct = append(res.Distinct, k)
@@ -769,7 +772,8 @@ func runC02(e *Env) error {
 		"non-trivial = expected output contains the goroutine's own marker; distinct by (config, call kind, template, goroutine). " +
 		"Regression jobs first (concurrent first loads through the file-system loader, relative names from different directories, concurrent parses). " +
 		"Plus: hundreds (thorough: thousands) of calls stopped by user code inside the same nested templates at the same time, further calls made meanwhile (c02_inflight.go). " +
-		"Plus: forced overlaps around the loaders — one or two calls held inside a user Loader (before / after the read, inside GetModifiedTime; cold, warm and changed cache entries; every route, also nested through include / extends / import) while renders and registrations of the same and of other names complete, then every route once more with a time limit; results compared with every admissible serial order on twin engines (c02_overlap.go). " +
+		"Plus: forced overlaps around the loaders — one or two calls held inside a user Loader (before / after the read, inside GetModifiedTime; cold, warm and changed cache entries; every route, also nested through include / extends / import) while renders and registrations of the same and of other names complete, then every route once more with a time limit; results compared with every admissible serial order on twin engines (c02_overlap.go); the same with the call held inside the loader's look-up of a name written relative to the rendering template ('./x', '../x' in include / include ignore missing / extends / import / from, from a sub-directory and from the top level) whose resolved name the loader does not have, while the resolved name or the name as written is registered and the page is rendered by other calls (c02_relnames.go). " +
+		"Plus: every schedule of start and finish events of 2, 3 and 4 calls stopped by user code inside nested templates (first-in-first-out, last-in-first-out, nested, mixed), on engines of every setting (default, debug mode, development mode, strict variables, loader with cache on / off / auto-reload), each result compared with the same call on a twin engine used serially (c02_order.go). " +
 		"Run in a child of this binary and, when VERIF_RACE_BIN is set, in the -race build. Plus the deterministic Load/RegisterString lost-update replay (vs model op conc_sem)."
 	if err := c02LostUpdateCheck(e); err != nil {
 		return err
